@@ -13,7 +13,7 @@
   (no `mkThreadsafeTrigger` anywhere in the body).
   Known finding D36: `render_to_terminal` of a window with hide_cursor=False writes hide_cursor first and
   normal_cursor last; an exception at a write in between leaves the cursor hidden and `__exit__` only shows it
-  `if self.hide_cursor`.  `C12_D36_witness`; `C12_restore_partial` carries `NoCrash body`.
+  `if self.hide_cursor`.  `C12_D36_witness`; `C12_restore_partial` carries the exact complement `CrashOk`.
   Known finding D26: a FullscreenWindow entered and left INSIDE another one switches the terminal back to the main
   screen while the outer window is still active (ESC[?1049l does not nest), so later renders land on the main
   screen.  `C12_main_screen_full_statement` is false (`C12_D26_witness`); `C12_main_screen_partial` carries the
@@ -45,16 +45,20 @@ def NoLeak : Body A → Prop
 def isEnvOp : Op → Bool
   | .envTty _ => true | .envFl _ => true | .envSigint _ => true | _ => false
 
-def isCrashOp : Op → Bool
-  | .renderCrash _ => true | _ => false
+/-- a render cut short by a failing write is harmless when the failing write is the first one (nothing was written)
+    or when the innermost window hides the cursor itself (its `__exit__` shows it again) -/
+def crashOkOp (stack : List (Ctx A × Saved A)) : Op → Prop
+  | .renderCrash k => k = 0 ∨ innerWindowHide stack ≠ some false
+  | _ => True
 
-/-- no render is cut short by a failing write (complement of D36's footprint, conservatively: D36 needs the window
-    to have hide_cursor=False and the failing write not to be the first) -/
-def NoCrash : Body A → Prop
-  | .done => True
-  | .raise => True
-  | .op o rest => isCrashOp o = false ∧ NoCrash rest
-  | .nest _ inner rest => NoCrash inner ∧ NoCrash rest
+/-- EXACT complement of D36's footprint: no render of a window with hide_cursor=False is cut short at a write after
+    the first one.  (Failing writes in hide_cursor=True windows, first-write failures and crashes with no window in
+    scope are all allowed.) -/
+def CrashOk : List (Ctx A × Saved A) → Body A → Prop
+  | _, .done => True
+  | _, .raise => True
+  | st, .op o rest => crashOkOp st o ∧ CrashOk st rest
+  | st, .nest c inner rest => (∀ sv, CrashOk ((c, sv) :: st) inner) ∧ CrashOk st rest
 
 /-- nobody else changes the tty attributes, status flags or SIGINT handler while the context is active (environment
     steps are meant for the gap BETWEEN two uses of a context manager: `C12_reuse`) -/
@@ -90,10 +94,24 @@ private theorem write_restored (w : World A) : Restored w (write w) := by
 
 private theorem doOp_restored (T : TtyOps A) (main : Bool) (stack : List (Ctx A × Saved A)) (o : Op) (w : World A)
     (h : o ≠ .mkThreadsafeTrigger)
-    (he : isEnvOp o = false) (hc : isCrashOp o = false) :
+    (he : isEnvOp o = false) (hc : crashOkOp stack o) :
     Restored w (doOp T main stack o w).1 := by
   cases o with
-  | renderCrash k => exact absurd hc (by simp [isCrashOp])
+  | renderCrash k =>
+    simp only [doOp]
+    cases hw : innerWindowHide stack with
+    | none => exact Restored.refl w
+    | some hide =>
+      cases hide with
+      | true =>
+        simp only []
+        split
+        · exact Restored.refl w
+        · exact write_restored w
+      | false =>
+        rcases hc with hk | hk
+        · simp [hk]; exact Restored.refl w
+        · exact absurd hw hk
   | envTty k => exact absurd he (by simp [isEnvOp])
   | envFl k => exact absurd he (by simp [isEnvOp])
   | envSigint hh => exact absurd he (by simp [isEnvOp])
@@ -132,7 +150,7 @@ private theorem enter_exit_restored (T : TtyOps A) (main : Bool) (c : Ctx A) (w 
 
 /-- the general statement, for bodies at any nesting depth -/
 theorem run_restored (T : TtyOps A) (main : Bool) (body : Body A) :
-    ∀ (stack : List (Ctx A × Saved A)) (w : World A), NoLeak body → NoEnv body → NoCrash body →
+    ∀ (stack : List (Ctx A × Saved A)) (w : World A), NoLeak body → NoEnv body → CrashOk stack body →
       Restored w (run T main body stack w).2.1 := by
   induction body with
   | done => intro _ w _ _ _; exact Restored.refl w
@@ -146,25 +164,29 @@ theorem run_restored (T : TtyOps A) (main : Bool) (body : Body A) :
     · exact h1.trans (ih stack _ hn.2 he.2 hc.2)
   | nest c inner rest ih1 ih2 =>
     intro stack w hn he hc
-    have hin := ih1 ((c, (enter T main c w).1) :: stack) (enter T main c w).2 hn.1 he.1 hc.1
+    have hin := ih1 ((c, (enter T main c w).1) :: stack) (enter T main c w).2 hn.1 he.1 (hc.1 _)
     have h3 := enter_exit_restored T main c w _ hin
     simp only [run]
     split
     · exact h3
     · exact h3.trans (ih2 stack _ hn.2 he.2 hc.2)
 
-/-- The property at full strength: `with c: body` restores, for every body. FALSE because of D18. -/
+/-- The property at full strength: `with c: body` restores, for every body in which nobody else changes the terminal
+    while the context is active (`NoEnv`: environment steps belong between uses).  FALSE because of D18 and D36 - and
+    only because of them: `C12_restore_partial` proves it under the exact complements of the two footprints. -/
 def C12_full_statement : Prop :=
-  ∀ (A : Type) (T : TtyOps A) (main : Bool) (c : Ctx A) (body : Body A) (w : World A),
+  ∀ (A : Type) (T : TtyOps A) (main : Bool) (c : Ctx A) (body : Body A) (w : World A), NoEnv body →
     Restored w (withCtx T main c body w).2.1
 
 /-- Leaving the context of an Input, FullscreenWindow, CursorAwareWindow, Cbreak, Nonblocking or Termmode - normally
     or through an exception raised at any point of the body - restores tty attributes, status flags, SIGINT handler,
     wake-up descriptor and the set of open descriptors, leaves a visible cursor visible and does not leave the
     alternate screen active; for every flag combination, both threads, every initial state, every nesting.
-    Hypothesis = complement of D18: the body creates no thread-safe trigger. -/
+    Hypotheses = exact complements of the footprints of D18 (`NoLeak`: no thread-safe trigger is created) and D36
+    (`CrashOk`: no render of a hide_cursor=False window is cut short after its first write), plus `NoEnv`. -/
 theorem C12_restore_partial (T : TtyOps A) (main : Bool) (c : Ctx A) (body : Body A) (w : World A)
-    (h : NoLeak body) (he : NoEnv body) (hc : NoCrash body) : Restored w (withCtx T main c body w).2.1 := by
+    (h : NoLeak body) (he : NoEnv body) (hc : ∀ sv, CrashOk [(c, sv)] body) :
+    Restored w (withCtx T main c body w).2.1 := by
   unfold withCtx
   exact run_restored T main (.nest c body .done) [] w ⟨h, trivial⟩ ⟨he, trivial⟩ ⟨hc, trivial⟩
 
@@ -173,7 +195,8 @@ theorem C12_restore_partial (T : TtyOps A) (main : Bool) (c : Ctx A) (body : Bod
     exit restores the world as it was at the SECOND entry (after the environment's change), not the one captured at
     the first entry; and the first exit restored the world of the first entry. -/
 theorem C12_reuse (T : TtyOps A) (main : Bool) (c : Ctx A) (b1 b2 : Body A) (e : Op) (w : World A)
-    (h1 : NoLeak b1) (e1 : NoEnv b1) (c1 : NoCrash b1) (h2 : NoLeak b2) (e2 : NoEnv b2) (c2 : NoCrash b2)
+    (h1 : NoLeak b1) (e1 : NoEnv b1) (c1 : ∀ sv, CrashOk [(c, sv)] b1) (h2 : NoLeak b2) (e2 : NoEnv b2)
+    (c2 : ∀ sv, CrashOk [(c, sv)] b2)
     (hr : (withCtx T main c b1 w).2.2 = false)
     (he : (doOp T main [] e (withCtx T main c b1 w).2.1).2 = false) :
     let w1 := (withCtx T main c b1 w).2.1
@@ -298,7 +321,7 @@ theorem C12_D18_witness :
     (withCtx unitOps true (.input ⟨false, false⟩) (.op .mkThreadsafeTrigger .done) w0).2.1.fds = [5, 6] ∧
     ¬ C12_full_statement := by
   refine ⟨by decide, fun h => ?_⟩
-  have := (h Unit unitOps true (.input ⟨false, false⟩) (.op .mkThreadsafeTrigger .done) w0).fds
+  have := (h Unit unitOps true (.input ⟨false, false⟩) (.op .mkThreadsafeTrigger .done) w0 (by simp [NoEnv, isEnvOp])).fds
   exact absurd this (by decide)
 
 /-- D36 on the model: `with FullscreenWindow(hide_cursor=False) as w: w.render_to_terminal(...)` where the second
@@ -308,7 +331,7 @@ theorem C12_D36_witness :
     (withCtx unitOps true (.fullscreen false) (.op (.renderCrash 1) .done) w0).2.1.cursorVisible = false ∧
     ¬ C12_full_statement := by
   refine ⟨by decide, fun h => ?_⟩
-  have := (h Unit unitOps true (.fullscreen false) (.op (.renderCrash 1) .done) w0).cursor rfl
+  have := (h Unit unitOps true (.fullscreen false) (.op (.renderCrash 1) .done) w0 (by simp [NoEnv, isEnvOp])).cursor rfl
   exact absurd this (by decide)
 
 /-- D26 on the model, nested FullscreenWindows: the outer window's render after the inner one was left lands on the
@@ -329,5 +352,12 @@ example : (withCtx unitOps true (.input ⟨true, false⟩) (.op (.request .retur
     (doOp unitOps true [] (.envTty 0)
       (withCtx unitOps true (.input ⟨true, false⟩) (.op (.request .returnsAfterRead) .done) w0).2.1).2 = false := by
   decide
+
+
+/-- Non-vacuity of `CrashOk`: failing writes that the theorem COVERS - in a hide_cursor=True window at any write, and
+    at the first write of a hide_cursor=False window. -/
+example : (∀ sv, CrashOk (A := Unit) [(.fullscreen true, sv)] (.op (.renderCrash 3) .done)) ∧
+    (∀ sv, CrashOk (A := Unit) [(.cursorAware false true, sv)] (.op (.renderCrash 0) .done)) := by
+  constructor <;> intro sv <;> simp [CrashOk, crashOkOp, innerWindowHide]
 
 end Curtsies
